@@ -142,7 +142,7 @@ def check_seq(prop_id, tier, seed):
     total = seq_slice(prop, tier, seed, report)
     extra = EXTRAS.get(prop_id)
     extra_cov = extra(prop, tier, seed, report) if extra else {}
-    if (report.lean["broken"] or report.disagreements) and not report.findings:
+    if (report.lean["broken"] or report.disagreements) and not report.unknown_findings():
         # failing-input search: the property's own oracle with more budget
         more = seq_slice(prop, tier, seed + 7919, report, budget_scale=3.0, label="search")
         total.steps += more.steps
@@ -198,7 +198,7 @@ def check_special(prop_id, modname, tier, seed):
     report = Report(prop_id, tier, seed)
     report.lean = framework.lean_obligations(prop_id, thorough=(tier == "thorough"))
     cov = mod.run(tier, seed, report)
-    if (report.lean["broken"] or report.disagreements) and not report.findings:
+    if (report.lean["broken"] or report.disagreements) and not report.unknown_findings():
         more = mod.run("thorough" if tier == "quick" else tier, seed + 7919, report)
         cov["evaluations"] += more["evaluations"]
         report.notes.append("failing-input search ran %d more cases" % more["evaluations"])
@@ -211,7 +211,7 @@ def check_crash(prop_id, tier, seed):
     report = Report(prop_id, tier, seed)
     report.lean = framework.lean_obligations(prop_id, thorough=(tier == "thorough"))
     cov = crash.run(prop_id, tier, seed, report)
-    if (report.lean["broken"] or report.disagreements) and not report.findings and tier == "quick":
+    if (report.lean["broken"] or report.disagreements) and not report.unknown_findings() and tier == "quick":
         more = crash.run(prop_id, "thorough", seed + 7919, report)
         cov["evaluations"] += more["evaluations"]
         report.notes.append("failing-input search ran the thorough scenario grid")
@@ -224,7 +224,7 @@ def check_faults(prop_id, tier, seed):
     report = Report(prop_id, tier, seed)
     report.lean = framework.lean_obligations(prop_id, thorough=(tier == "thorough"))
     cov = faults.run(prop_id, tier, seed, report)
-    if (report.lean["broken"] or report.disagreements) and not report.findings and tier == "quick":
+    if (report.lean["broken"] or report.disagreements) and not report.unknown_findings() and tier == "quick":
         more = faults.run(prop_id, "thorough", seed + 7919, report)
         cov["evaluations"] += more["evaluations"]
         report.notes.append("failing-input search ran the thorough fault grid")
@@ -243,7 +243,7 @@ def check_conc(prop_id, tier, seed):
         cov["distinct_nontrivial"] += fc["distinct_nontrivial"]
         cov["rule"] += "; plus, for every single call, an I/O error at each of its fault sites (see C13): lock lists must be empty afterwards and the follow-up call must complete"
         cov["samples"] += fc["samples"][:1]
-    if (report.lean["broken"] or report.disagreements) and not report.findings and tier == "quick":
+    if (report.lean["broken"] or report.disagreements) and not report.unknown_findings() and tier == "quick":
         more = conc.run(prop_id, "thorough", seed + 7919, report)
         cov["evaluations"] += more["evaluations"]
         report.notes.append("failing-input search ran the thorough schedule budget")
